@@ -68,6 +68,11 @@ func c09Cases() []c09Case {
 		{"pull-redelivery", two, heldDue, pull("S1", 10), pullIgn},
 		{"pull-deadletter-move", two, heldDue, pull("S0", 10), pullIgn},
 		{"stream-ack+nack-one-tx", two, held, model.Op{K: "acknack", Sub: "S0", Sel: "first2"}, nil},
+		{"stream-ack+nack-deadletter-one-tx", two, append(append([]model.Op{}, held...), pull("S1", 10)), model.Op{K: "acknack", Sub: "S0", Sel: "span"}, nil},
+		{"stream-modack-zero", two, held, model.Op{K: "streamModack", Sub: "S0", Sel: "span", D: 0}, nil},
+		{"stream-modack-20s", two, held, model.Op{K: "streamModack", Sub: "S1", Sel: "all", D: 20 * time.Second}, nil},
+		{"update-subscription-deadletter+retry", two, held, model.Op{K: "updateSubDL", Sub: "S1", Topic: "TD"}, nil},
+		{"publish-ordered-with-predecessor", two, append(append([]model.Op{}, backlog...), pull("S0", 1)), pubN("T0", "K1", "K1"), nil},
 		{"seek-time-reopen", two, append(append([]model.Op{}, held...), ack("S0", "all")), seekT("S0", "before-all"), nil},
 		{"seek-time-ack", two, held, seekT("S0", "now"), nil},
 		{"create-snapshot", two, append(append([]model.Op{}, held...), ack("S0", "oldest")), snap("S0", "N0"), nil},
